@@ -34,7 +34,7 @@ def build(tier="quick", seed=0):
     sp = L.import_module("flow.record.adapter.split")
     pack = new_pack("C17", "Writers lose nothing: close, split and rotation keep every record once")
     RD = base.g["RecordDescriptor"]
-    FU = ("flow.record.adapter:AbstractWriter.__exit__", "flow.record.adapter.stream:StreamWriter.write", "flow.record.adapter.stream:StreamWriter.flush", "flow.record.adapter.stream:StreamWriter.close",
+    FU = ("flow.record.adapter:AbstractWriter.__enter__", "flow.record.adapter:AbstractWriter.__exit__", "flow.record.adapter.stream:StreamWriter.write", "flow.record.adapter.stream:StreamWriter.flush", "flow.record.adapter.stream:StreamWriter.close",
           "flow.record.stream:RecordStreamWriter.write", "flow.record.stream:RecordStreamWriter.flush", "flow.record.stream:RecordStreamWriter.close", "flow.record.adapter.jsonfile:JsonfileWriter.write", "flow.record.adapter.jsonfile:JsonfileWriter.flush",
           "flow.record.adapter.jsonfile:JsonfileWriter.close", "flow.record.adapter.avro:AvroWriter.write", "flow.record.adapter.avro:AvroWriter.flush", "flow.record.adapter.avro:AvroWriter.close", "flow.record.adapter.sqlite:SqliteWriter.write",
           "flow.record.adapter.sqlite:SqliteWriter.flush", "flow.record.adapter.sqlite:SqliteWriter.close", "flow.record.adapter.sqlite:SqliteWriter.tx_cycle", "flow.record.adapter.split:SplitWriter.write", "flow.record.adapter.split:SplitWriter._next_path",
@@ -89,6 +89,11 @@ def build(tier="quick", seed=0):
                 it.assume(z3.And(v >= 0, v < 2**31))
             D = desc()
             w = mk(path)
+            if ending.startswith("with-exit"):
+                # `with <writer> as w:` - the block works with what __enter__ hands out
+                w = it.call(it.getattr_(w, "__enter__"), [], {})
+                if not hasattr(w, "cls"):
+                    raise PyRaise(AttributeError(f"the with-block got {w!r} instead of a writer"))
             written = []
             k = 0
             for op in list(body) + ENDINGS[ending]:
